@@ -61,19 +61,22 @@ def _writers(R, attr, cls):
 
 
 def gate(R):
-    q = S + '.run._regular'
-    g = R.cfg(q)
-    rd = ReachingDefs(g)
-    rc = calls_to(R, g, S + '._regular')
-    need(len(rc) == 1, 'run._regular: expected one self._regular call')
-    n, c = rc[0]
-    lits = {(t, p) for (t, p, _) in guards_of(g, n, within=c)}
-    R.ob('C15.gate', 'housekeeping generator only when ready', match_exact(guard_atom_sets(g, n, within=c), [{('self._ready', True)}]),
-         'self._regular(...) is created under %s' % sorted(lits), func=q, node=c)
-    # all uses of the housekeeping generator in run go through the closure
-    direct = [c_.func.qual for (c_, call, t) in R.types.callers.get(S + '._regular', [])]
-    R.ob('C15.gate', 'no ungated housekeeping', sorted(set(direct)) == [q], '_regular called from %s' % sorted(set(direct)),
-         func=S + '._regular', node=None, construct='_regular callers %s' % sorted(set(direct)))
+    from .common import hk_iters
+    gr = R.cfg(S + '.run')
+    its = hk_iters(R, gr)
+    need(its, 'run(): no loop over the housekeeping generator found')
+    sites = set()
+    for (n, ok, desc, calls) in its:
+        R.ob('C15.gate', 'housekeeping generator only when ready', ok,
+             'self._regular(...) is not created under `self._ready` alone (%s)' % desc,
+             func=(calls[0][0].ctx.func.qual if calls else S + '.run'), node=(calls[0][2] if calls else n.ast))
+        for (cg, cn, cc) in calls:
+            sites.add(id(cc))
+    # all uses of the housekeeping generator go through such a gated loop
+    allc = [(c_, call) for (c_, call, t) in R.types.callers.get(S + '._regular', [])]
+    direct = sorted(set(c_.func.qual for (c_, call) in allc if id(call) not in sites))
+    R.ob('C15.gate', 'no ungated housekeeping', not direct, '_regular called from %s' % direct,
+         func=S + '._regular', node=None, construct='_regular callers %s' % direct)
     w = _writers(R, '_ready', S)
     tw = [(c_, s) for (c_, s, t, v) in w if U(v) == 'True']
     R.ob('C15.gate', 'single True writer of _ready', len(tw) == 1 and tw[0][0].func.qual == S + '._on_event',
@@ -113,8 +116,8 @@ def cadence(R):
     rd = ReachingDefs(g)
     heads = [h for h in g.live_nodes() if h.kind == 'loophead']
     need(heads, 'run(): receive loop not found')
-    hk = [n for n in g.live_nodes() if n.kind == 'forinit' and isinstance(n.ast, ast.Call)
-          and R.types.resolves_to(n.ast, g.ctx, q + '._regular')]
+    from .common import hk_iters
+    hk = [n for (n, _ok, _d, _c) in hk_iters(R, g)]
     waits = [n for (n, _) in calls_to(R, g, 'selectors.SelectorBase.wait')]
     ok = bool(hk) and bool(waits)
     for w in waits:
@@ -374,15 +377,21 @@ def close(R, RID='C15.close'):
 
 
 def params(R):
-    chain = [('websocket.WebSocket.connect', S + '.run', ['poll', 'ping_rate', 'ping_timeout', 'auto_pong', 'close_timeout']),
-             (S + '.run._regular', S + '._regular', ['poll', 'ping_rate', 'ping_timeout', 'close_timeout']),
-             ('persist.persist', 'websocket.WebSocket.connect', ['poll', 'ping_rate', 'ping_timeout'])]
-    for (src, dst, names) in chain:
-        g = R.cfg(src)
+    from .common import hk_iters
+    chain = [('websocket.WebSocket.connect', S + '.run', ['poll', 'ping_rate', 'ping_timeout', 'auto_pong', 'close_timeout'], None),
+             ('persist.persist', 'websocket.WebSocket.connect', ['poll', 'ping_rate', 'ping_timeout'], None)]
+    for (n_, ok_, d_, calls) in hk_iters(R, R.cfg(S + '.run')):
+        for (cg, cn, cc) in calls:
+            chain.append((cg.ctx.func.qual, S + '._regular', ['poll', 'ping_rate', 'ping_timeout', 'close_timeout'], (cg, cn, cc)))
+    for (src, dst, names, site) in chain:
+        if site is None:
+            g = R.cfg(src)
+            cs = calls_to(R, g, dst)
+            need(len(cs) == 1, '%s: expected one call of %s' % (src, dst))
+            n, c = cs[0]
+        else:
+            g, n, c = site
         rd = ReachingDefs(g)
-        cs = calls_to(R, g, dst)
-        need(len(cs) == 1, '%s: expected one call of %s' % (src, dst))
-        n, c = cs[0]
         df = R.func(dst)
         for name in names:
             a = arg_of(c, df, name)
